@@ -59,3 +59,10 @@ claim("C08", POL + "Exit obligation on every path: admitted => the breaker was t
       TB + "Async cancellation modelled as the awaited operation raising CancelledError at its await point (the only suspension points).", "DESIGN.md C08")
 claim("C09", POL + "Ghost record log: exactly one record per admitted call, kind/class determined by the final outcome; none for unadmitted calls "
       "(finding F7 for the pre-flight abort path).", TB, "DESIGN.md C09")
+claim("C12", "Forwarding lemmas for every sugar entry point (recording-contract targets, identity of every forwarded parameter, AST audit of the "
+      "constructors); sync~async by aligned co-execution of the real twins under the same decisions and fresh-symbol numbering (runners, sleep "
+      "actions) and by the path product (Policy~AsyncPolicy); call~execute by the path product with the delivery relation at policy level "
+      "(quick) and at runner level (thorough tier, ~15 min).",
+      TB + ENVN + "Async-only behaviours (cancellation injected at an await, awaitable-returning callbacks) are switched off in the twin "
+      "comparison; agreement when observability hooks raise is delegated to C15; library-created objects are identified by creation site.",
+      "DESIGN.md A.1", "relational contracts: forwarding lemmas + aligned co-execution / path product of the real twins")
